@@ -48,7 +48,7 @@ func c06split_MODELNAME(N, T int, constVolume bool) {
 		vsym.Reach("left-to-kernel-level-harness")
 		return
 	}
-	if wrHeavy(name) {
+	if wrHeavyNoSummary(name) {
 		vsym.Note("kernel of " + name + " is outside the reach of the executor within the budget: this wrapper is not exercised with its own kernel")
 		vsym.Reach("skipped-heavy-kernel")
 		return
